@@ -102,7 +102,7 @@ def run(tier, seed):
     traces = []
     for t in range(nt):
         k = rng.choice([1, 2, 3, 4, 5, 7, 8, 13])
-        ln = rng.choice([k, k + 1, k + 2, 2 * k + 1, 3 * k + 2, 40 if quick else 120])
+        ln = rng.choice([k, k + 1, k + 2, 2 * k + 1, 3 * k + 2, 40 if quick else 120, 130 if quick else 500])
         vals = [rng.randrange(-1000, 1001) for _ in range(ln)]
         try:
             obs = _drive(k, vals)
